@@ -65,6 +65,8 @@ def main():
         result.get("demo_pristine") == "pass" and result.get("demo_with_change") == "FAIL"
     result["confirmed"] = bool(confirmed)
     checks = {}
+    evbak = "/tmp/evidence-bak-%d" % os.getpid()
+    shutil.copytree(os.path.join(VERIF, "evidence"), evbak)   # evidence committed must come from the unchanged tree
     if confirmed:
         rc, out = sh(["git", "-C", "/repo", "apply", "--recount", patch])
         try:
@@ -75,6 +77,8 @@ def main():
         finally:
             sh(["git", "-C", "/repo", "checkout", "--", "."])
             sh(["git", "-C", "/repo", "clean", "-fdq"])
+    shutil.rmtree(os.path.join(VERIF, "evidence"))
+    shutil.move(evbak, os.path.join(VERIF, "evidence"))
     result["checks_quick"] = checks
     result["detected_by"] = [p for p, v in checks.items() if v["exit"] != 0]
     dst = os.path.join(VERIF, "seeded", sid)
